@@ -8,7 +8,7 @@
      http    = TL [TL [TS file; bool]..]                        (absent = false)
      filters = TL [TL [TS demangler-mode; TL [TL [TS name; TS demangled]..]]..]   (absent = unchanged)
    observable = TL [TS "ok"; err; profile after; CheckValid ok; TL calls]  |  TL [TS "panic"; TS msg] *)
-From PV Require Import M_Symbolize S_Symbolize.
+From PV Require Import M_Symbolize M_SymbolizeFetch S_Symbolize.
 Open Scope Z_scope.
 
 Definition frame_of (t : term) : frame :=
@@ -66,9 +66,38 @@ Definition run_sym (i : term) : term :=
   | OPanic => TL [TS "panic"; TS "model"]
   end.
 
+(* op "sym2": the same Symbolizer symbolizes the same profile a second time (unless the first call
+   returned an error); every call consumed one answer, the second run continues with the rest *)
+Definition run_sym2 (i : term) : term :=
+  match symbolize (in_mode i) (env_of i) (in_script i) (in_profile i) with
+  | Out p1 false calls1 =>
+      match symbolize (in_mode i) (env_of i) (skipn (List.length calls1) (in_script i)) p1 with
+      | Out p2 err calls2 =>
+          TL [TS "ok"; of_bool err; of_profile p2; of_bool (check_valid p2); TL (map of_call (calls1 ++ calls2)%list)]
+      | OPanic => TL [TS "panic"; TS "model"]
+      end
+  | Out p1 true calls1 => TL [TS "ok"; of_bool true; of_profile p1; of_bool (check_valid p1); TL (map of_call calls1)]
+  | OPanic => TL [TS "panic"; TS "model"]
+  end.
+
+(* op "fetch": arguments as for "sym" (the sources slot is unused: the pipeline computes them), then
+   the source URL reported by the fetcher ("" = local file) and the table of url.Parse/IsAbs answers *)
+Definition in_src (i : term) : string := gs (gn i 7).
+Definition absurl_of (i : term) : string -> bool :=
+  let t := btab_of (gn i 8) in fun f => match assoc_s t f with Some b => b | None => false end.
+
+Definition run_fetch (i : term) : term :=
+  match fetch_symbolize (in_mode i) (env_of i) (absurl_of i) (in_script i) (in_src i) (in_profile i) with
+  | FOut p' calls => TL [TS "ok"; of_profile p'; TL (map of_call calls); TZ 1 (* the saved copy agrees *)]
+  | FErr calls => TL [TS "err"; TL (map of_call calls)]
+  | FPanic => TL [TS "panic"; TS "model"]
+  end.
+
 Definition run_C12 (i : term) : term :=
   let a := args_of i in
   if String.eqb (op_of i) "sym" then run_sym a
+  else if String.eqb (op_of i) "sym2" then run_sym2 a
+  else if String.eqb (op_of i) "fetch" then run_fetch a
   else if String.eqb (op_of i) "adjust" then
     match adjust (gz (gn a 0)) (gz (gn a 1)) with
     | Some r => TL [TZ 1; TZ r]
@@ -105,17 +134,32 @@ Definition spec_sym (i o : term) : bool :=
     (negb (check_valid p && id_headroomb p p') || (check_valid p' && gb (gn o 3))) &&
     (negb (filter_tables_nonempty i) || names_keptb p p').
 
+(* the pipeline: the same clauses, between the fetched profile (fake mapping added when it has none)
+   and the returned one; an error return hands no profile to the rest of pprof *)
+Definition spec_fetch (i o : term) : bool :=
+  if String.eqb (gs (gn o 0)) "err" then true
+  else if negb (String.eqb (gs (gn o 0)) "ok") then false
+  else
+    let p := add_fake (in_profile i) in
+    let p' := profile_of (gn o 1) in
+    frame_okb p p' && lines_attachedb p p' && flags_raisedb p p' &&
+    (force_requested (in_mode i) || left_aloneb p p') &&
+    check_valid p' && gb (gn o 3) &&
+    (negb (filter_tables_nonempty i) || names_keptb p p').
+
 (* adjust: no wrap-around goes unnoticed: success exactly when addr+offset is a uint64, and then that sum *)
 Definition spec_adjust (a o : term) : bool :=
   let s := gz (gn a 0) + gz (gn a 1) in
   if in_u64 s then gb (gn o 0) && (gz (gn o 1) =? s) else negb (gb (gn o 0)).
 
 Definition spec_C12 (i o : term) : bool :=
-  if String.eqb (op_of i) "sym" then spec_sym (args_of i) o
+  if String.eqb (op_of i) "sym" || String.eqb (op_of i) "sym2" then spec_sym (args_of i) o
+  else if String.eqb (op_of i) "fetch" then spec_fetch (args_of i) o
   else if String.eqb (op_of i) "adjust" then spec_adjust (args_of i) o
   else true.
 
-(* no known-finding class on the repaired tree *)
-Definition cls_C12 (i : term) : list Z := [].
+(* class 34 = F34 (S_Symbolize.in_F34): a fetched mapping without build id whose file is an absolute URL *)
+Definition cls_C12 (i : term) : list Z :=
+  if String.eqb (op_of i) "fetch" && in_F34 (absurl_of (args_of i)) (in_profile (args_of i)) then [34] else [].
 
 Definition judge_C12 := judge_all run_C12 eqv_C12 spec_C12 cls_C12 0%Z.
